@@ -48,11 +48,13 @@ LEVEL_TEXT = ('Kernel-checked theorems about the model of the load path, for eve
               '(C07_value_roundtrip_partial), a recomputed cell with an unchanged encoding produces no stored action (C07_no_stored, '
               'C07_reloaded_cell_quiet_partial), storable covers everything column.set stores (C07_storable_covers_set), and cells made of '
               'None/bool/int/float/str/lists (every right-type value and alt text of the typed columns) come back as the same object, so a '
-              'dependent formula observes the same (C07_reload_observably_equal_partial). The full observation statement is refuted by '
-              'witnesses replayed on the engine.')
+              'dependent formula observes the same (C07_reload_observably_equal_partial); an error cell comes back as an error of the same '
+              'name, message and details with a stand-in .error of that class and message, so a reader is shown the same class and text '
+              '(C07_reload_error_cell, C07_reload_observably_equal_error_partial). The full observation statement is refuted by a rich '
+              'object in an Any cell, replayed on the engine.')
 LEVEL_NOTE = ('Kernel level for the cell; the document level ("Calculate emits nothing, same tables") is the composition with C05 '
-              '(recalculation from scratch) and is exercised by the real-reload search. Findings on the unchanged tree: (1) decoded error '
-              'cells lose .error, dependents recompute to [E, NoneType]; (2) Any/Blob data cells hold objects richer than their encoding '
+              '(recalculation from scratch) and is exercised by the real-reload search. Findings: (1, repaired by 2fb0387, kept as a '
+              'regression Example and corpus documents) decoded error cells lost .error, dependents recomputed to [E, NoneType]; (2) Any/Blob data cells hold objects richer than their encoding '
               '(tuple, naive datetime, Record, bytes, big int, ...), dependents recompute differently; (3) datetime.max reloads as an '
               'OverflowError value (C24 defect).')
 
@@ -170,12 +172,24 @@ def real_cell_reload(t, v):
   return real_set(t, td.columns['A'][0]), pairs
 
 
+def innermost(err):
+  import objtypes
+  while isinstance(err, objtypes.CellError):
+    err = err.error
+  return err
+
+
 def err_field(raw):
-  """model's second cell component: class name of raw.error, None when there is none"""
+  """model's second cell component: (class name, str) of the innermost exception in raw.error; None when there is none"""
   import objtypes
   if isinstance(raw, objtypes.RaisedException) and raw.error is not None:
-    return objtypes.RaisedException(objtypes.CellError('T', 'A', 2, raw.error))._name
+    inner = innermost(raw.error)
+    return type(inner).__name__, str(inner)
   return None
+
+
+def err_lit(d):
+  return 'None' if d is None else '(Some (%s, Some %s))' % (pv.slit(d[0]), pv.slit(d[1]))
 
 
 # ---- cell values ---------------------------------------------------------------------------------------------
@@ -310,7 +324,7 @@ def res_lit(b, res, with_err):
   if kind == 'raise':
     return '(Raise %s)' % pv.slit(x)
   if with_err:
-    return '(Ok (%s, %s))' % (b.val(x), pv.opt(err_field(x), pv.slit))
+    return '(Ok (%s, %s))' % (b.val(x), err_lit(err_field(x)))
   return '(Ok %s)' % b.val(x)
 
 
@@ -387,7 +401,7 @@ def correspond_cells(ctx):
       for x, _m in pairs:
         if type(x) is not bytes:
           b.collect(x)
-      lit = lit_case(b.val(raw), b.tables(NEED), ctype_lit(t), pairs_lit(b, pairs), pv.opt(err_field(raw), pv.slit), res_lit(b, res2, True))
+      lit = lit_case(b.val(raw), b.tables(NEED), ctype_lit(t), pairs_lit(b, pairs), err_lit(err_field(raw)), res_lit(b, res2, True))
     except RecursionError:
       continue
     except ValueError as ex:
@@ -416,7 +430,7 @@ def correspond_cells(ctx):
                       'fun c => match c with (v, tbl, T, mp, err, r) => res_eqb cell_eqb '
                       '(reload (oracles_of tbl) (marshal_of mp) (unmarshal_of mp) T %d (v, err)) r end' % FUEL,
                       rl_cases, shard=60 if ctx.tier == 'quick' else 120, timeout=TIMEOUT(ctx),
-                      case_type='(value * tables * ctype * list (value * list Z) * option str * result cell)%type')
+                      case_type='(value * tables * ctype * list (value * list Z) * option errdesc * result cell)%type')
   for k in bad[:6]:
     t, v = rl_meta[k]
     r2 = real_cell_reload(t, v)[0]
@@ -546,7 +560,8 @@ def correspond_compare(ctx):
 
 
 def real_observe(t, raw):
-  """What a reader of the cell gets from column.get_cell_value: ('raise', class name its own error reports) or ('see', raw)."""
+  """What a reader of the cell gets from column.get_cell_value: ('raise', (class name, text) its own error is built from) or
+  ('see', raw)."""
   import objtypes
   col = fixture()[t]
   col._data[2] = raw                     # the raw object itself (set would normalise it)
@@ -554,7 +569,10 @@ def real_observe(t, raw):
     col.get_cell_value(2)
     res = ('see', raw)
   except Exception as ex:
-    res = ('raise', objtypes.RaisedException(ex)._name)
+    inner = innermost(ex)
+    if objtypes.RaisedException(ex)._name != type(inner).__name__:
+      raise core.TieBroken('RaisedException._name is not the class name of the innermost exception')
+    res = ('raise', (type(inner).__name__, str(inner)))
   col._data[2] = col.getdefault()
   return res
 
@@ -567,18 +585,18 @@ def correspond_observe(ctx):
     for c in (raw, rl):
       if not isinstance(c, objtypes.RaisedException):
         continue
-      kind, name = real_observe(t, c)
+      kind, shown = real_observe(t, c)
       if kind != 'raise':
         raise core.TieBroken('get_cell_value of an error cell did not raise')
       b = pv.Builder()
-      lit = '((%s, %s), %s)' % (b.val(c), pv.opt(err_field(c), pv.slit), pv.slit(name))
+      lit = '((%s, %s), (%s, %s))' % (b.val(c), err_lit(err_field(c)), pv.slit(shown[0]), pv.slit(shown[1]))
       if lit not in seen:
         seen.add(lit)
         cases.append(lit)
         meta.append((t, c))
-        ctx.count('o' + lit, nontrivial=True, kind='observe:error:%s' % ('decoded' if c.error is None else 'raised'))
-  bad = ctx.run_cases('observe', IMPORTS, 'fun c => obs_eqb (observe (fst c)) (ORaise (snd c))', cases, shard=300, timeout=TIMEOUT(ctx),
-                      case_type='((value * option (list Z)) * list Z)%type')
+        ctx.count('o' + lit, nontrivial=True, kind='observe:error:%s' % ('no .error' if c.error is None else type(c.error).__module__.split('.')[0]))
+  bad = ctx.run_cases('observe', IMPORTS, 'fun c => obs_eqb (observe (fst c)) (ORaise (fst (snd c)) (Some (snd (snd c))))', cases, shard=300, timeout=TIMEOUT(ctx),
+                      case_type='((value * option (list Z * option (list Z))) * (list Z * list Z))%type')
   for k in bad[:6]:
     t, c = meta[k]
     ctx.broken('correspondence:model observe differs from column.get_cell_value',
@@ -734,6 +752,23 @@ RICH_FORMULAS = ['(1, 2)', '[1, (2, 3)]', 'datetime.datetime(2020, 1, 1, 10, 30)
 PROBES = ['type($%s).__name__', 'repr($%s)', '$%s', 'str($%s)', '$%s == (1, 2)', 'bool($%s)']
 
 
+def _err_doc(formula, typ, reader, recalc=0):
+  return [[['AddTable', 'T', [{'id': 'A', 'type': typ, 'isFormula': False, 'formula': formula, 'recalcWhen': recalc},
+                              {'id': 'Z', 'type': 'Any', 'isFormula': True, 'formula': reader}]]], [['AddRecord', 'T', None, {}]]]
+
+
+# C07-decoded-error-cell-loses-error (fixed by 2fb0387): an error cell of a data column read by a formula
+CORPUS = [
+  ('error-cell-read', _err_doc('NoSuchName', 'Text', '$A')),
+  ('error-cell-read-int', _err_doc('1 / 0', 'Int', '$A')),
+  ('error-cell-read-any', _err_doc('NoSuchName', 'Any', 'IFERROR($A, "caught")')),
+  ('error-cell-read-chain', [[['AddTable', 'T', [{'id': 'A', 'type': 'Numeric', 'isFormula': False, 'formula': 'int("x")', 'recalcWhen': 2},
+                                                 {'id': 'Y', 'type': 'Any', 'isFormula': True, 'formula': '$A'},
+                                                 {'id': 'Z', 'type': 'Text', 'isFormula': True, 'formula': '$Y'}]]],
+                             [['BulkAddRecord', 'T', [None, None], {}]]]),
+]
+
+
 def make_gen(rng, rich):
   from harness import histgen
 
@@ -887,7 +922,8 @@ def check_reload(e, classify=True):
   f = real_reload(e)[0]
   cells = lossy_cells(e, f)
   for modes, kind in ((('err',), 'decoded_error_cell_loses_error'), (('rich',), 'rich_cell_value_not_restored'),
-                      (('dtmax',), 'datetime_end_of_calendar'), (('err', 'rich', 'dtmax'), 'lossy_cells_mixed')):
+                      (('dtmax',), 'datetime_end_of_calendar'), (('rich', 'dtmax'), 'lossy_cells_mixed'),
+                      (('err', 'rich', 'dtmax'), 'lossy_cells_mixed_with_error')):
     sel = [c for c in cells if c[3] in modes]
     if not sel:
       continue
@@ -920,6 +956,12 @@ def search(ctx):
   core.setup_impl_path()
   n_hist, nb = ctx.n(24, 400), ctx.n(8, 14)
   reported = collections.Counter()
+  # regression corpus first: witnesses of repaired findings (they must stay quiet) and their variations
+  for name, history in CORPUS:
+    res = check_reload(build(history))
+    ctx.count(('corpus', name), nontrivial=True, kind='corpus:%s' % ('+'.join(k for k, _w in res) if res else 'ok'))
+    for kind, what in res:
+      ctx.violation(kind, 'corpus document %s: %s' % (name, what), {'history': history, 'kind': kind})
   for h in range(n_hist):
     rich = h % 3 == 2
     typed = h % 3 == 1
@@ -954,6 +996,7 @@ def search(ctx):
       except Exception:
         G.clean(e)
         ctx.bump('bundle:failed')
+        history.append(bundle)      # build() replays failed bundles too: what they leave behind is part of the state
         continue
       gen.after_bundle(e)
       history.append(bundle)
@@ -1001,8 +1044,9 @@ def _mixed_or(kind):
 
 
 # A violation is attributed to a known root cause only by the counterfactual of check_reload: the same reload, with exactly
-# the cells of that kind given back their saved objects, changes nothing. 'lossy_cells_mixed' = cured only by both repairs.
+# the cells of that kind given back their saved objects, changes nothing. 'lossy_cells_mixed' = cured only by restoring both
+# the rich objects and an end-of-calendar datetime. (decoded_error_cell_loses_error was repaired by 2fb0387: its entry is
+# 'fixed' and suppresses nothing; a failure that needs error attributes restored is reported under its own kind.)
 MATCHERS = {
-  'decoded_error_cell_loses_error': _mixed_or('decoded_error_cell_loses_error'),
   'rich_cell_value_not_restored': _mixed_or('rich_cell_value_not_restored'),
 }
